@@ -25,10 +25,11 @@ import (
 )
 
 type trTarget struct {
-	Pkg  string // import path
-	Recv string // receiver type name ("" for a function)
-	Name string
-	Fuel string // Lean expression for the fuel of `for cond` loops (over the variables in scope)
+	Pkg      string // import path
+	Recv     string // receiver type name ("" for a function)
+	Name     string
+	Fuel     string // Lean expression for the fuel of `for cond` loops (over the variables in scope)
+	EraseObj bool   // results of object type (the context, a response message) are erased from the Lean result
 }
 
 func (t trTarget) key() string { return t.Pkg + "." + t.Recv + "." + t.Name }
@@ -68,6 +69,19 @@ var trTargets = []trTarget{
 	{Pkg: geth + "consensus/misc", Name: "CalcBaseFee"},
 	{Pkg: geth + "core", Name: "IntrinsicGas"},
 	{Pkg: evm + "x/feemarket/keeper", Recv: "Keeper", Name: "CalculateBaseFee"},
+	{Pkg: evm + "types", Name: "addUint64Overflow"},
+	{Pkg: evm + "types", Recv: "infiniteGasMeterWithLimit", Name: "ConsumeGas"},
+	{Pkg: evm + "types", Recv: "infiniteGasMeterWithLimit", Name: "RefundGas"},
+	{Pkg: evm + "x/evm/keeper", Recv: "Keeper", Name: "ResetGasMeterAndConsumeGas"},
+	{Pkg: evm + "x/evm/keeper", Recv: "Keeper", Name: "GetBaseFee"},
+	{Pkg: evm + "x/cpc/keeper", Name: "validateDeployer"},
+	{Pkg: evm + "app/antedl/duallane", Recv: "DLExtensionOptionsDecorator", Name: "AnteHandle", EraseObj: true},
+	{Pkg: evm + "app/antedl/duallane", Recv: "DLTxTimeoutHeightDecorator", Name: "AnteHandle", EraseObj: true},
+	{Pkg: evm + "app/antedl/duallane", Recv: "DLValidateMemoDecorator", Name: "AnteHandle", EraseObj: true},
+	{Pkg: evm + "app/antedl/cosmoslane", Recv: "CLRejectEthereumMsgsDecorator", Name: "AnteHandle", EraseObj: true},
+	{Pkg: evm + "app/antedl/cosmoslane", Recv: "CLVestingMessagesAuthorizationDecorator", Name: "AnteHandle", EraseObj: true},
+	{Pkg: evm + "app/antedl/duallane", Recv: "DLValidateBasicDecorator", Name: "AnteHandle", EraseObj: true},
+	{Pkg: evm + "x/vauth/keeper", Recv: "msgServer", Name: "SubmitProofExternalOwnedAccount", EraseObj: true},
 }
 
 // ---------------------------------------------------------------------------------------------
@@ -92,6 +106,7 @@ const (
 	kUnit
 	kPtrSdk // *sdkmath.Int: nil or a value
 	kOList  // a slice of opaque objects
+	kStrs   // []string
 )
 
 type lty struct {
@@ -118,19 +133,20 @@ type fnSig struct {
 	results  []lty
 	mutRoots []int // indices into params of opaque roots that are returned updated
 	hasEff   bool
+	effCoins []string // coin-list arguments of the effect being emitted
 	resLean  string
 	ok       bool
 }
 
 type gen struct {
-	pkgs    map[string]*packages.Package
-	structs map[string]*structDef
-	sigs    map[string]*fnSig
-	decls   map[string]string // key -> lean text
-	order   []string
-	errors  map[string]string
-	active  map[string]bool
-	opaqueC []string // opaque conditions, for the record
+	pkgs      map[string]*packages.Package
+	structs   map[string]*structDef
+	sigs      map[string]*fnSig
+	decls     map[string]string // key -> lean text
+	order     []string
+	errors    map[string]string
+	active    map[string]bool
+	opaqueC   []string          // opaque conditions, for the record
 	typeNames map[string]string // Go type (full path) -> structure name
 	nameOwner map[string]string
 }
@@ -260,6 +276,9 @@ func (g *gen) classify(t types.Type) lty {
 		if b, ok := u.Elem().Underlying().(*types.Basic); ok && b.Kind() == types.Uint8 {
 			return lty{k: kBytes, lean: "List Nat"}
 		}
+		if b, ok := u.Elem().Underlying().(*types.Basic); ok && b.Kind() == types.String {
+			return lty{k: kStrs, lean: "(List String)"}
+		}
 		if ek := g.classifySafe(u.Elem()); ek.k == kOpaque && !isNamedType {
 			g.structOf(ek.opaque)
 			return lty{k: kOList, lean: "(List " + ek.opaque + ")", opaque: ek.opaque}
@@ -267,11 +286,19 @@ func (g *gen) classify(t types.Type) lty {
 	case *types.Signature:
 		var ps, rs []string
 		for i := 0; i < u.Params().Len(); i++ {
-			pt := g.classify(u.Params().At(i).Type())
-			if pt.k == kOpaque || pt.k == kFunc {
-				trFail("callback with opaque parameter")
+			pt := g.classifySafe(u.Params().At(i).Type())
+			if pt.k == kFunc || pt.k == kUnit {
+				trFail("callback with a function parameter")
+			}
+			if pt.k == kOpaque || pt.k == kOList {
+				// an opaque argument of a callback (the context, the transaction) is dropped: the callback's result is a
+				// function of its value arguments only (the objects are the ones the enclosing function already reads)
+				continue
 			}
 			ps = append(ps, pt.lean)
+		}
+		if len(ps) == 0 {
+			ps = []string{"Unit"}
 		}
 		for i := 0; i < u.Results().Len(); i++ {
 			rt := g.classify(u.Results().At(i).Type())
@@ -345,32 +372,35 @@ type pathVal struct {
 }
 
 type fnCtx struct {
-	g      *gen
-	pkg    *packages.Package
-	info   *types.Info
-	fd     *ast.FuncDecl
-	tgt    trTarget
-	lean   string
-	names  map[types.Object]string
-	used   map[string]bool
-	roots  map[types.Object]string // opaque roots (params / receiver) -> struct
-	alias  map[types.Object]pathVal
-	must   map[types.Object]types.Object // big.Int must-alias
-	may    map[types.Object][]types.Object
-	stale  map[types.Object]bool
-	fresh  map[types.Object]bool
-	scope  []types.Object // value variables in scope, declaration order
-	params []types.Object
-	named  []types.Object // named results
-	res    []lty
-	mut    map[types.Object]bool
-	mutAss map[types.Object]bool // assumed (second pass)
-	hasEff bool
-	effAss bool
-	lines  []string
-	aux    []string
-	nloop  int
-	retTy  string
+	g         *gen
+	pkg       *packages.Package
+	info      *types.Info
+	fd        *ast.FuncDecl
+	tgt       trTarget
+	lean      string
+	names     map[types.Object]string
+	used      map[string]bool
+	roots     map[types.Object]string // opaque roots (params / receiver) -> struct
+	alias     map[types.Object]pathVal
+	must      map[types.Object]types.Object // big.Int must-alias
+	may       map[types.Object][]types.Object
+	stale     map[types.Object]bool
+	fresh     map[types.Object]bool
+	scope     []types.Object // value variables in scope, declaration order
+	params    []types.Object
+	named     []types.Object // named results
+	res       []lty
+	resAll    []lty // every declared result; opaque ones are erased from the Lean result
+	erased    []bool
+	mut       map[types.Object]bool
+	mutAss    map[types.Object]bool // assumed (second pass)
+	hasEff    bool
+	effCoins  []string // coin-list arguments of the effect being emitted
+	effAss    bool
+	lines     []string
+	aux       []string
+	nloop     int
+	retTy     string
 	idxRoot   map[*ast.IndexExpr]types.Object // elements of opaque slices bound to a name
 	loopRoots []types.Object                  // opaque loop variables in scope
 }
@@ -471,6 +501,10 @@ func (f *fnCtx) pathOf(e ast.Expr) (pathVal, []ast.Expr, bool) {
 			}
 		}
 	case *ast.CallExpr:
+		// sdk.UnwrapSDKContext(goCtx): the same object under its other type
+		if fn := f.calleeFunc(x); fn != nil && fn.Pkg() != nil && fn.Pkg().Path() == "github.com/cosmos/cosmos-sdk/types" && fn.Name() == "UnwrapSDKContext" && len(x.Args) == 1 {
+			return f.pathOf(x.Args[0])
+		}
 		if sel, ok := x.Fun.(*ast.SelectorExpr); ok {
 			p, args, ok := f.pathOf(sel)
 			if ok && args == nil {
